@@ -960,6 +960,13 @@ class HTTPResponse(BaseHTTPResponse):
         flush_decoder = amt is None or (amt != 0 and not data)
 
         if not data and len(self._decoded_buffer) == 0:
+            if flush_decoder and decode_content:
+                # The body has ended: the decoder returns what it still holds
+                # and reports an incomplete stream.
+                self._decoded_buffer.put(self._flush_decoder())
+                if amt is None:
+                    return self._decoded_buffer.get_all()
+                return self._decoded_buffer.get(amt)
             return data
 
         if amt is None:
@@ -988,6 +995,7 @@ class HTTPResponse(BaseHTTPResponse):
                 # For example, the GZ file header takes 10 bytes, we don't want to read
                 # it one byte at a time
                 data = self._raw_read(amt)
+                flush_decoder = not data
                 decoded_data = self._decode(data, decode_content, flush_decoder)
                 self._decoded_buffer.put(decoded_data)
             data = self._decoded_buffer.get(amt)
